@@ -12,7 +12,8 @@ events
   `Z <tag>`                            empty element other than cvParam
   `L <text hex>`                       text of the array-length attributes of the next start tag (never read)
   `C <cv 0..20> <val> <unit>`          cvParam; val ∈ `a` | `g` | `f <f32 bits>` | `n <nat>`; unit ∈ s m o a
-  `T e` | `T b` | `T d <wire hex> <inflated: 0 | 1 hex>`
+  `T e` | `T b` | `T d <wire hex> <inflated: 0 | 1 hex>` | `T x <text hex> <decoded: 0 | 1 hex> <inflated: 0 | 1 hex>`
+                                       (`x`: the text verbatim; must agree with the model's `b64decode`)
 spectrum
   `<id hex> <level> <centroid> <tic> <start> <injection> <np> precursor… <nmz> f32… <nint> f32…`
 precursor
@@ -108,6 +109,15 @@ def pPayload : P Payload := do
     let w ← bytes
     let i ← opt bytes
     pure (.data w i)
+  | "x" => do
+    -- verbatim text; the request also says what base64 / zlib make of it (the harness checks that against the
+    -- real crates, this side against the model's `b64decode`)
+    let text ← bytes
+    let dec ← opt bytes
+    let inf ← opt bytes
+    if b64decode text != dec then failure
+    else if dec.isNone && inf.isSome then failure
+    else pure (Payload.ofText text (fun _ => inf))
   | _ => failure
 
 def pEvent : P (Event B32) := do
